@@ -327,6 +327,8 @@ func runC15() {
 		"map([St.Next, P], {#?.Y})[0]", "(B ? nil : B2)", "I", "S", "St", "F64", "P", "MA.n", "Any"} {
 		srcs = append(srcs, a+" == nil", a+" != nil", "nil == "+a, "nil != "+a, "not ("+a+" == nil)", "("+a+" == nil) ? 1 : 2")
 	}
+	// membership of a member NAME in a struct / pointer / map member that may be nil at run time: typed and untyped compiles agree
+	srcs = append(srcs, "\"X\" in P", "\"X\" not in P", "\"Y\" in St.Next", "\"X\" in P?.Next", "\"Zz\" in P", "\"X\" in St", "\"a\" in MI", "\"X\" in (B ? P : St.Next)", "[\"X\" in P, \"Y\" not in St.Next]")
 	srcs = append(srcs, "count(map([P, P?.Next, St.Next], {#?.X}), {# == nil})", "filter(map([P, St.Next], {#?.Y}), {# != nil})", "all(map([P], {#?.Next?.Next?.X}), {# == nil})")
 	ints := []string{"I", "I8", "I16", "I32", "I64", "U", "U8", "U16", "U32", "U64", "1", "300", "F64", "Any"}
 	for _, a := range ints {
@@ -582,6 +584,36 @@ func runC15() {
 					rep.fail(Failure{Key: "C15-modes-disagree", What: "struct / pointer / map environments with the same members return different results (members promoted through embedded structs)",
 						Input: map[string]interface{}{"src": src, "env": "c15Emb", "a": firstName, "b": m.name}, Want: clip(first), Got: clip(got)})
 					break
+				}
+			}
+		}
+	}
+	// environment types of the SAME printed name whose members have other types, compiled one after the other in this process: the
+	// typed compile of each agrees with its untyped compile and with Eval (what was learnt about one type says nothing about the other)
+	{
+		la, lb := c03LocalA(), c03LocalB()
+		for round, env := range []interface{}{la, lb, la, lb} {
+			for _, src := range []string{"Last.Value in 1..9", "Last.Value == 7", "Last.Unit in [\"c\", \"f\"]", "Last.Unit == 3", "[Last.Value, Last.Unit]", "Last.Value in [7, 8]", "Last.Unit in 1..5", "N + 1"} {
+				typed, terr, tcompiled := compileRun(src, env, expr.Env(env))
+				untyped, uerr, _ := compileRun(src, env)
+				ev, eerr := expr.Eval(src, env)
+				rep.Evaluations += 3
+				rep.hist("same-name environment types compiled in turn")
+				if terr != nil && tcompiled && uerr == nil && eerr == nil {
+					// accepted by the typed compile, then a run-time failure where the untyped program and Eval return a value: the
+					// static types steered the program somewhere else
+					rep.fail(Failure{Key: "C15-modes-disagree", What: "a typed compile accepts the source and its run fails where the untyped compile and Eval return a value (environment types printing the same name, compiled in turn)",
+						Input: map[string]interface{}{"src": src, "env": fmt.Sprintf("%+v", env), "round": round}, Want: "untyped " + clip(fmt.Sprintf("%#v", untyped)), Got: "typed run: " + firstLineOf(terr.Error())})
+					continue
+				}
+				if terr != nil || uerr != nil || eerr != nil {
+					continue
+				}
+				distinct["samename|"+src] = true
+				a, b, c := fmt.Sprintf("%#v", normSeq(typed)), fmt.Sprintf("%#v", normSeq(untyped)), fmt.Sprintf("%#v", normSeq(ev))
+				if a != b || a != c {
+					rep.fail(Failure{Key: "C15-modes-disagree", What: "typed compile, untyped compile and Eval that all succeed return different results (environment types printing the same name, compiled in turn)",
+						Input: map[string]interface{}{"src": src, "env": fmt.Sprintf("%+v", env), "round": round}, Want: "untyped " + clip(b) + " / Eval " + clip(c), Got: "typed " + clip(a)})
 				}
 			}
 		}
